@@ -66,26 +66,50 @@ theorem sameSet_refl (c : List Part) : sameSet c c = true := by rw [sameSet_iff]
 
 /-! ### the invariant -/
 
+/-- the tracker's current set of partitions with an outstanding request, as a predicate -/
+def rq (sh : Sh) : Part → Bool := fun p => sh.reqs.contains p
+
+/-- the candidates a refresh would build now -/
+def want (sh : Sh) : List Part := cand (rq sh) sh.owned
+
 /-- what holds while goroutine `t` is inside a call, holding the lock -/
-def HeldOk (req : Part → Bool) (sh : Sh) (t : Th) : Prop :=
+def HeldOk (sh : Sh) (t : Th) : Prop :=
   match t.todo, t.pc with
-  | _ :: _, .held => sh.active = sh.client
-  | .refresh :: _, .unassigned c => c = cand req sh.owned
-  | .refresh :: _, .installed c => c = cand req sh.owned ∧ sh.active = c
-  | .refresh :: _, .finishing => sh.active = sh.client ∧ sameSet (cand req sh.owned) sh.active = true
+  | .refresh :: _, .held => sh.active = sh.client
+  | .setOwned _ :: _, .held => sh.active = sh.client
+  | .refresh :: _, .unassigned c => c = want sh ∨ sh.stale = true
+  | .refresh :: _, .installed c => (c = want sh ∨ sh.stale = true) ∧ sh.active = c
+  | .refresh :: _, .finishing => sh.active = sh.client ∧ (sameSet (want sh) sh.active = true ∨ sh.stale = true)
   | .setOwned _ :: _, .finishing => sh.active = sh.client
   | _, _ => False
 
-structure Inv (req : Part → Bool) (s : Sys) : Prop where
+structure Inv (s : Sys) : Prop where
   free : s.sh.holder = none → (∀ j, (s.th j).pc = .start) ∧ s.sh.active = s.sh.client ∧
-    (sameSet (cand req s.sh.owned) s.sh.active = true ∨ ∃ j, Call.refresh ∈ (s.th j).todo)
-  held : ∀ i, s.sh.holder = some i → (∀ j, j ≠ i → (s.th j).pc = .start) ∧ HeldOk req s.sh (s.th i)
+    (sameSet (want s.sh) s.sh.active = true ∨ (∃ j, Call.refresh ∈ (s.th j).todo) ∨ s.sh.stale = true)
+  held : ∀ i, s.sh.holder = some i → (∀ j, j ≠ i → (s.th j).pc = .start) ∧ HeldOk s.sh (s.th i)
   wf : ∀ j, wfCalls (s.th j).todo = true
 
 theorem wfCalls_tail (c : Call) (r : List Call) (h : wfCalls (c :: r) = true) : wfCalls r = true := by
   cases c <;> simp [wfCalls] at h <;> first | exact h | exact h.2
 
-theorem step_inv (req : Part → Bool) (s s' : Sys) (i : Nat) (hI : Inv req s) (hs : step req s i = some s') : Inv req s' := by
+/-- a goroutine that is inside a call holds the lock -/
+theorem holder_of_pc (s : Sys) (i : Nat) (hI : Inv s) (hpc : (s.th i).pc ≠ .start) : s.sh.holder = some i := by
+  cases hho : s.sh.holder with
+  | none => exact absurd ((hI.free hho).1 i) hpc
+  | some k =>
+    by_cases hk : i = k
+    · rw [hk]
+    · exact absurd ((hI.held k hho).1 i hk) hpc
+
+theorem heldOk_tracker_change (sh : Sh) (t : Th) (r : List Part) (h : HeldOk sh t) :
+    HeldOk { sh with reqs := r, stale := true } t := by
+  unfold HeldOk at *
+  cases htd : t.todo with
+  | nil => simp [htd] at h
+  | cons c rest =>
+    cases c <;> cases hpc : t.pc <;> simp_all
+
+theorem step_inv (s s' : Sys) (i : Nat) (hI : Inv s) (hs : step s i = some s') : Inv s' := by
   unfold step at hs
   cases htd : (s.th i).todo with
   | nil => simp [htd] at hs
@@ -93,164 +117,179 @@ theorem step_inv (req : Part → Bool) (s s' : Sys) (i : Nat) (hI : Inv req s) (
     simp only [htd] at hs
     have hwf_i := hI.wf i
     rw [htd] at hwf_i
+    have hwf_rest := wfCalls_tail call rest hwf_i
+    have wf_keep : ∀ (t : Th), t.todo = call :: rest → ∀ j, wfCalls ((upd s.th i t) j).todo = true := by
+      intro t ht j
+      by_cases hj : j = i
+      · subst hj; simp [ht, hwf_i]
+      · simp [upd, hj, hI.wf j]
+    have wf_drop : ∀ j, wfCalls ((upd s.th i { todo := rest, pc := .start }) j).todo = true := by
+      intro j
+      by_cases hj : j = i
+      · subst hj; simp [hwf_rest]
+      · simp [upd, hj, hI.wf j]
     cases hpc : (s.th i).pc with
     | start =>
       simp only [hpc] at hs
-      split at hs
-      · rename_i hfree
-        cases hs
-        obtain ⟨hst, hac, _⟩ := hI.free hfree
-        refine ⟨by intro h; simp at h, ?_, ?_⟩
+      cases call with
+      | setReq r =>
+        simp only at hs; cases hs
+        refine ⟨?_, ?_, wf_drop⟩
+        · intro hfree
+          obtain ⟨hst, hac, _⟩ := hI.free hfree
+          refine ⟨?_, hac, Or.inr (Or.inr rfl)⟩
+          intro j; by_cases hj : j = i
+          · subst hj; simp
+          · simp [upd, hj, hst j]
         · intro k hk
+          obtain ⟨hoth, hok⟩ := hI.held k hk
+          have hki : k ≠ i := by
+            intro e; subst e
+            unfold HeldOk at hok
+            simp [htd, hpc] at hok
+          refine ⟨?_, ?_⟩
+          · intro j hj; by_cases hji : j = i
+            · subst hji; simp
+            · simp [upd, hji, hoth j hj]
+          · simp only [upd, hki, if_false]
+            exact heldOk_tracker_change s.sh (s.th k) r hok
+      | refresh =>
+        simp only at hs
+        split at hs
+        · rename_i hfree
+          cases hs
+          obtain ⟨hst, hac, _⟩ := hI.free hfree
+          refine ⟨by intro h; simp at h, ?_, wf_keep _ (by simp)⟩
+          intro k hk
           simp at hk; subst hk
           refine ⟨fun j hj => by simp [upd, hj, hst j], ?_⟩
           simp [HeldOk, hac]
-        · intro j; by_cases hj : j = i
-          · subst hj; simp [hwf_i]
-          · simp [upd, hj, hI.wf j]
-      · simp at hs
+        · simp at hs
+      | setOwned o =>
+        simp only at hs
+        split at hs
+        · rename_i hfree
+          cases hs
+          obtain ⟨hst, hac, _⟩ := hI.free hfree
+          refine ⟨by intro h; simp at h, ?_, wf_keep _ (by simp)⟩
+          intro k hk
+          simp at hk; subst hk
+          refine ⟨fun j hj => by simp [upd, hj, hst j], ?_⟩
+          simp [HeldOk, hac]
+        · simp at hs
     | held =>
-      have hh : s.sh.holder = some i := by
-        cases hho : s.sh.holder with
-        | none => have := (hI.free hho).1 i; rw [hpc] at this; cases this
-        | some k =>
-          by_cases hk : i = k
-          · rw [hk]
-          · have := (hI.held k hho).1 i hk; rw [hpc] at this; cases this
+      have hh := holder_of_pc s i hI (by rw [hpc]; simp)
       obtain ⟨hoth, hok⟩ := hI.held i hh
-      simp only [HeldOk, htd, hpc] at hok
       simp only [hpc] at hs
       cases call with
+      | setReq r => simp at hs
       | setOwned o =>
+        simp only [HeldOk, htd, hpc] at hok
         simp only at hs; cases hs
-        refine ⟨by intro h; simp [hh] at h, ?_, ?_⟩
-        · intro k hk
-          simp [hh] at hk; subst hk
-          refine ⟨fun j hj => by simp [upd, hj, hoth j hj], ?_⟩
-          simp [HeldOk, hok]
-        · intro j; by_cases hj : j = i
-          · subst hj; simp [hwf_i]
-          · simp [upd, hj, hI.wf j]
+        refine ⟨by intro h; simp [hh] at h, ?_, wf_keep _ (by simp)⟩
+        intro k hk
+        simp [hh] at hk; subst hk
+        refine ⟨fun j hj => by simp [upd, hj, hoth j hj], ?_⟩
+        simp [HeldOk, hok]
       | refresh =>
+        simp only [HeldOk, htd, hpc] at hok
         simp only at hs
         split at hs
         · rename_i hsame
           cases hs
-          refine ⟨by intro h; simp [hh] at h, ?_, ?_⟩
-          · intro k hk
-            simp [hh] at hk; subst hk
-            refine ⟨fun j hj => by simp [upd, hj, hoth j hj], ?_⟩
-            simp only [HeldOk, upd_same]
-            exact ⟨hok, hsame⟩
-          · intro j; by_cases hj : j = i
-            · subst hj; simp [hwf_i]
-            · simp [upd, hj, hI.wf j]
-        · cases hs
-          refine ⟨by intro h; simp [hh] at h, ?_, ?_⟩
-          · intro k hk
-            simp [hh] at hk; subst hk
-            refine ⟨fun j hj => by simp [upd, hj, hoth j hj], ?_⟩
-            simp [HeldOk]
-          · intro j; by_cases hj : j = i
-            · subst hj; simp [hwf_i]
-            · simp [upd, hj, hI.wf j]
-    | unassigned c =>
-      have hh : s.sh.holder = some i := by
-        cases hho : s.sh.holder with
-        | none => have := (hI.free hho).1 i; rw [hpc] at this; cases this
-        | some k =>
-          by_cases hk : i = k
-          · rw [hk]
-          · have := (hI.held k hho).1 i hk; rw [hpc] at this; cases this
-      obtain ⟨hoth, hok⟩ := hI.held i hh
-      simp only [hpc] at hs
-      cases hs
-      cases call with
-      | setOwned o => simp [HeldOk, htd, hpc] at hok
-      | refresh =>
-        simp only [HeldOk, htd, hpc] at hok
-        refine ⟨by intro h; simp [hh] at h, ?_, ?_⟩
-        · intro k hk
-          simp [hh] at hk; subst hk
-          refine ⟨fun j hj => by simp [upd, hj, hoth j hj], ?_⟩
-          simp [HeldOk, hok]
-        · intro j; by_cases hj : j = i
-          · subst hj; simp [hwf_i]
-          · simp [upd, hj, hI.wf j]
-    | installed c =>
-      have hh : s.sh.holder = some i := by
-        cases hho : s.sh.holder with
-        | none => have := (hI.free hho).1 i; rw [hpc] at this; cases this
-        | some k =>
-          by_cases hk : i = k
-          · rw [hk]
-          · have := (hI.held k hho).1 i hk; rw [hpc] at this; cases this
-      obtain ⟨hoth, hok⟩ := hI.held i hh
-      simp only [hpc] at hs
-      cases hs
-      cases call with
-      | setOwned o => simp [HeldOk, htd, hpc] at hok
-      | refresh =>
-        simp only [HeldOk, htd, hpc] at hok
-        refine ⟨by intro h; simp [hh] at h, ?_, ?_⟩
-        · intro k hk
+          refine ⟨by intro h; simp [hh] at h, ?_, wf_keep _ (by simp)⟩
+          intro k hk
           simp [hh] at hk; subst hk
           refine ⟨fun j hj => by simp [upd, hj, hoth j hj], ?_⟩
           simp only [HeldOk, upd_same]
-          refine ⟨hok.2, ?_⟩
-          rw [← hok.1, hok.2]; exact sameSet_refl c
-        · intro j; by_cases hj : j = i
-          · subst hj; simp [hwf_i]
-          · simp [upd, hj, hI.wf j]
-    | finishing =>
-      have hh : s.sh.holder = some i := by
-        cases hho : s.sh.holder with
-        | none => have := (hI.free hho).1 i; rw [hpc] at this; cases this
-        | some k =>
-          by_cases hk : i = k
-          · rw [hk]
-          · have := (hI.held k hho).1 i hk; rw [hpc] at this; cases this
+          exact ⟨hok, Or.inl hsame⟩
+        · cases hs
+          refine ⟨by intro h; simp [hh] at h, ?_, wf_keep _ (by simp)⟩
+          intro k hk
+          simp [hh] at hk; subst hk
+          refine ⟨fun j hj => by simp [upd, hj, hoth j hj], ?_⟩
+          simp only [HeldOk, upd_same]
+          exact Or.inl rfl
+    | unassigned c =>
+      have hh := holder_of_pc s i hI (by rw [hpc]; simp)
       obtain ⟨hoth, hok⟩ := hI.held i hh
       simp only [hpc] at hs
       cases hs
-      have hwf_rest := wfCalls_tail call rest hwf_i
-      refine ⟨?_, by intro k hk; simp at hk, ?_⟩
-      · intro _
-        refine ⟨?_, ?_⟩
-        · intro j; by_cases hj : j = i
-          · subst hj; simp
-          · simp [upd, hj, hoth j hj]
-        · cases call with
-          | refresh =>
-            simp only [HeldOk, htd, hpc] at hok
-            exact ⟨hok.1, Or.inl hok.2⟩
-          | setOwned o =>
-            simp only [HeldOk, htd, hpc] at hok
-            refine ⟨hok, Or.inr ⟨i, ?_⟩⟩
-            simp only [wfCalls, Bool.and_eq_true, List.contains_iff_mem] at hwf_i
-            simpa using hwf_i.1
+      cases call with
+      | setOwned o => simp [HeldOk, htd, hpc] at hok
+      | setReq r => simp [HeldOk, htd, hpc] at hok
+      | refresh =>
+        simp only [HeldOk, htd, hpc] at hok
+        refine ⟨by intro h; simp [hh] at h, ?_, wf_keep _ (by simp)⟩
+        intro k hk
+        simp [hh] at hk; subst hk
+        refine ⟨fun j hj => by simp [upd, hj, hoth j hj], ?_⟩
+        simp only [HeldOk, upd_same]
+        exact ⟨hok, trivial⟩
+    | installed c =>
+      have hh := holder_of_pc s i hI (by rw [hpc]; simp)
+      obtain ⟨hoth, hok⟩ := hI.held i hh
+      simp only [hpc] at hs
+      cases hs
+      cases call with
+      | setOwned o => simp [HeldOk, htd, hpc] at hok
+      | setReq r => simp [HeldOk, htd, hpc] at hok
+      | refresh =>
+        simp only [HeldOk, htd, hpc] at hok
+        refine ⟨by intro h; simp [hh] at h, ?_, wf_keep _ (by simp)⟩
+        intro k hk
+        simp [hh] at hk; subst hk
+        refine ⟨fun j hj => by simp [upd, hj, hoth j hj], ?_⟩
+        simp only [HeldOk, upd_same]
+        refine ⟨hok.2, ?_⟩
+        rcases hok.1 with h1 | h1
+        · left
+          have hw : want { s.sh with client := c } = want s.sh := rfl
+          rw [hw, ← h1, hok.2]; exact sameSet_refl c
+        · exact Or.inr h1
+    | finishing =>
+      have hh := holder_of_pc s i hI (by rw [hpc]; simp)
+      obtain ⟨hoth, hok⟩ := hI.held i hh
+      simp only [hpc] at hs
+      cases hs
+      refine ⟨?_, by intro k hk; simp at hk, wf_drop⟩
+      intro _
+      refine ⟨?_, ?_⟩
       · intro j; by_cases hj : j = i
-        · subst hj; simp [hwf_rest]
-        · simp [upd, hj, hI.wf j]
+        · subst hj; simp
+        · simp [upd, hj, hoth j hj]
+      · cases call with
+        | refresh =>
+          simp only [HeldOk, htd, hpc] at hok
+          refine ⟨hok.1, ?_⟩
+          rcases hok.2 with h1 | h1
+          · exact Or.inl h1
+          · exact Or.inr (Or.inr h1)
+        | setOwned o =>
+          simp only [HeldOk, htd, hpc] at hok
+          refine ⟨hok, Or.inr (Or.inl ⟨i, ?_⟩)⟩
+          simp only [wfCalls, Bool.and_eq_true, List.contains_iff_mem] at hwf_i
+          simpa using hwf_i.1
+        | setReq r => simp [HeldOk, htd, hpc] at hok
     | decided c =>
       simp only [hpc] at hs; cases call <;> simp at hs
     | locked c =>
       simp only [hpc] at hs; cases call <;> simp at hs
 
-theorem run_inv (req : Part → Bool) (sched : List Nat) : ∀ (s : Sys), Inv req s → Inv req (run (step req) s sched) := by
+theorem run_inv (sched : List Nat) : ∀ (s : Sys), Inv s → Inv (run step s sched) := by
   induction sched with
   | nil => intro s h; exact h
   | cons i r ih =>
     intro s h
     simp only [run]
-    cases hs : step req s i with
+    cases hs : step s i with
     | none => simpa using ih s h
-    | some s' => simpa using ih s' (step_inv req s s' i h hs)
+    | some s' => simpa using ih s' (step_inv s s' i h hs)
 
-/-- once every call has returned: nobody holds the lock, the client is assigned exactly the active set, and that is the
-set of owned partitions with an outstanding request -/
-theorem quiescent (req : Part → Bool) (s : Sys) (hI : Inv req s) (hq : ∀ j, (s.th j).todo = []) :
-    s.sh.holder = none ∧ s.sh.client = s.sh.active ∧ sameSet (cand req s.sh.owned) s.sh.client = true := by
+/-- once every call has returned: nobody holds the lock, the client is assigned exactly the active set, and — unless the
+tracker changed after the last refresh built its candidates — that is the set of owned partitions with an outstanding request -/
+theorem quiescent (s : Sys) (hI : Inv s) (hq : ∀ j, (s.th j).todo = []) :
+    s.sh.holder = none ∧ s.sh.client = s.sh.active ∧ (s.sh.stale = false → sameSet (want s.sh) s.sh.client = true) := by
   have hfree : s.sh.holder = none := by
     cases hh : s.sh.holder with
     | none => rfl
@@ -259,45 +298,48 @@ theorem quiescent (req : Part → Bool) (s : Sys) (hI : Inv req s) (hq : ∀ j, 
       simp [HeldOk, hq i] at this
   obtain ⟨_, hac, hor⟩ := hI.free hfree
   refine ⟨hfree, hac.symm, ?_⟩
-  cases hor with
-  | inl h => rw [← hac]; exact h
-  | inr h => obtain ⟨j, hj⟩ := h; simp [hq j] at hj
+  intro hst
+  rcases hor with h | h | h
+  · rw [← hac]; exact h
+  · obtain ⟨j, hj⟩ := h; simp [hq j] at hj
+  · rw [hst] at h; cases h
 
-/-- **C09, every interleaving.** From any state in which nobody is inside a call, the client reads the active set and that
-set is right or some refresh is still to come: whatever the schedule, when all calls have returned the recovery client is
-assigned exactly the owned partitions that have an outstanding request. -/
-theorem refresh_serialised (req : Part → Bool) (s0 : Sys) (h0 : Inv req s0) (sched : List Nat)
-    (hq : ∀ j, ((run (step req) s0 sched).th j).todo = []) :
-    let s := run (step req) s0 sched
-    s.sh.client = s.sh.active ∧ ∀ p, p ∈ s.sh.client ↔ (p ∈ s.sh.owned ∧ req p = true) := by
+/-- **C09, every interleaving.** Goroutines run any lists of `refresh`, `setOwned …; refresh` (assignment, revocation) and
+`setReq` (request filed or received, completion recorded) calls, in any schedule of their individual steps.  When all calls
+have returned and the tracker did not change after the last refresh built its candidates ("once its periodic refresh has
+run"), the recovery client is assigned exactly the owned partitions that have an outstanding request. -/
+theorem refresh_serialised (s0 : Sys) (h0 : Inv s0) (sched : List Nat)
+    (hq : ∀ j, ((run step s0 sched).th j).todo = []) (hst : (run step s0 sched).sh.stale = false) :
+    let s := run step s0 sched
+    s.sh.client = s.sh.active ∧ ∀ p, p ∈ s.sh.client ↔ (p ∈ s.sh.owned ∧ p ∈ s.sh.reqs) := by
   intro s
-  obtain ⟨_, hca, hss⟩ := quiescent req s (run_inv req sched s0 h0) hq
+  obtain ⟨_, hca, hss⟩ := quiescent s (run_inv sched s0 h0) hq
   refine ⟨hca, fun p => ?_⟩
-  have := (sameSet_iff _ _).mp hss p
-  simp only [cand, List.mem_filter] at this
+  have := (sameSet_iff _ _).mp (hss hst) p
+  simp only [want, cand, rq, List.mem_filter, List.contains_iff_mem] at this
   exact this.symm
 
 /-- a revocation that has returned leaves nothing assigned, whatever else was going on -/
-theorem revoked_reads_nothing (req : Part → Bool) (s0 : Sys) (h0 : Inv req s0) (sched : List Nat)
-    (hq : ∀ j, ((run (step req) s0 sched).th j).todo = [])
-    (hrev : (run (step req) s0 sched).sh.owned = []) :
-    (run (step req) s0 sched).sh.client = [] := by
-  have h := (refresh_serialised req s0 h0 sched hq).2
+theorem revoked_reads_nothing (s0 : Sys) (h0 : Inv s0) (sched : List Nat)
+    (hq : ∀ j, ((run step s0 sched).th j).todo = []) (hst : (run step s0 sched).sh.stale = false)
+    (hrev : (run step s0 sched).sh.owned = []) :
+    (run step s0 sched).sh.client = [] := by
+  have h := (refresh_serialised s0 h0 sched hq hst).2
   rw [hrev] at h
-  cases hc : (run (step req) s0 sched).sh.client with
+  cases hc : (run step s0 sched).sh.client with
   | nil => rfl
   | cons x xs => have := (h x).mp (by rw [hc]; simp); simp at this
 
 /-- no deadlock: while some call is left, some goroutine can move (the lock holder always can) -/
-theorem progress (req : Part → Bool) (s : Sys) (hI : Inv req s) (j : Nat) (hj : (s.th j).todo ≠ []) :
-    ∃ i, (step req s i).isSome = true := by
+theorem progress (s : Sys) (hI : Inv s) (j : Nat) (hj : (s.th j).todo ≠ []) :
+    ∃ i, (step s i).isSome = true := by
   cases hh : s.sh.holder with
   | none =>
     refine ⟨j, ?_⟩
     have hst := (hI.free hh).1 j
     cases htd : (s.th j).todo with
     | nil => exact absurd htd hj
-    | cons c r => simp [step, htd, hst, hh]
+    | cons c r => cases c <;> simp [step, htd, hst, hh]
   | some i =>
     refine ⟨i, ?_⟩
     have hok := (hI.held i hh).2
@@ -305,13 +347,14 @@ theorem progress (req : Part → Bool) (s : Sys) (hI : Inv req s) (j : Nat) (hj 
     | nil => simp [HeldOk, htd] at hok
     | cons c r =>
       cases hpc : (s.th i).pc with
-      | start => simp [HeldOk, htd, hpc] at hok
+      | start => cases c <;> simp [HeldOk, htd, hpc] at hok
       | held =>
         cases c with
         | refresh => simp only [step, htd, hpc]; split <;> simp
         | setOwned o => simp [step, htd, hpc]
-      | decided c' => simp [HeldOk, htd, hpc] at hok
-      | locked c' => simp [HeldOk, htd, hpc] at hok
+        | setReq r' => simp [HeldOk, htd, hpc] at hok
+      | decided c' => cases c <;> simp [HeldOk, htd, hpc] at hok
+      | locked c' => cases c <;> simp [HeldOk, htd, hpc] at hok
       | unassigned c' => simp [step, htd, hpc]
       | installed c' => simp [step, htd, hpc]
       | finishing => simp [step, htd, hpc]
@@ -321,15 +364,15 @@ theorem progress (req : Part → Bool) (s : Sys) (hI : Inv req s) (j : Nat) (hj 
 /-- partition 0 is owned and has a request, nothing is under recovery yet; goroutine 0 is the ticker's refresh, goroutine 1
 the revocation (`SetAssignedPartitions([])` + `RefreshAssignments()`) -/
 def demo : Sys :=
-  { sh := { owned := [0] },
+  { sh := { owned := [0], reqs := [0] },
     th := fun j => if j = 0 then { todo := [.refresh] } else if j = 1 then { todo := [.setOwned [], .refresh] } else {} }
 
 def demoReq : Part → Bool := fun _ => true
 
-theorem demo_inv : Inv demoReq demo := by
+theorem demo_inv : Inv demo := by
   refine ⟨?_, ?_, ?_⟩
   · intro _
-    refine ⟨?_, rfl, Or.inr ⟨0, by simp [demo]⟩⟩
+    refine ⟨?_, rfl, Or.inr (Or.inl ⟨0, by simp [demo]⟩)⟩
     intro j; simp only [demo]
     by_cases h0 : j = 0
     · simp [h0]
@@ -352,9 +395,16 @@ theorem old_protocol_loses_revocation :
   decide
 
 /-- the same schedule (and any other) under the current protocol: the revocation waits for the lock and then unassigns -/
-example : (run (step demoReq) demo [0, 0, 0, 1, 1, 0, 0, 0, 0, 1, 1, 1, 1, 1, 1, 1, 1, 1]).sh.client = [] := by decide
+example : (run step demo [0, 0, 0, 1, 1, 0, 0, 0, 0, 1, 1, 1, 1, 1, 1, 1, 1, 1]).sh.client = [] := by decide
 
-theorem step_other (req : Part → Bool) (s s' : Sys) (i j : Nat) (hs : step req s i = some s') (hj : j ≠ i) : s'.th j = s.th j := by
+/-- a request arriving while the ticker's refresh is in flight is picked up by the next refresh -/
+example :
+    let s := run step { demo with th := fun j => if j = 0 then { todo := [.refresh, .refresh] } else if j = 1 then { todo := [.setReq [0, 1], .setOwned [0, 1], .refresh] } else {} }
+      [0, 0, 1, 0, 0, 0, 1, 1, 1, 1, 1, 1, 1, 0, 0, 0, 0, 0, 0]
+    s.sh.stale = false ∧ s.sh.client = [0, 1] := by
+  decide
+
+theorem step_other (s s' : Sys) (i j : Nat) (hs : step s i = some s') (hj : j ≠ i) : s'.th j = s.th j := by
   unfold step at hs
   cases htd : (s.th i).todo with
   | nil => simp [htd] at hs
@@ -363,24 +413,24 @@ theorem step_other (req : Part → Bool) (s s' : Sys) (i j : Nat) (hs : step req
     cases hpc : (s.th i).pc <;> simp only [hpc] at hs <;> cases call <;> (try simp only at hs) <;> (try split at hs) <;>
       cases hs <;> simp [upd, hj]
 
-theorem run_other (req : Part → Bool) (j : Nat) (sched : List Nat) : ∀ (s : Sys), j ∉ sched → (run (step req) s sched).th j = s.th j := by
+theorem run_other (j : Nat) (sched : List Nat) : ∀ (s : Sys), j ∉ sched → (run step s sched).th j = s.th j := by
   induction sched with
   | nil => intro s _; rfl
   | cons i r ih =>
     intro s hj
     simp only [List.mem_cons, not_or] at hj
     simp only [run]
-    cases hs : step req s i with
+    cases hs : step s i with
     | none => simpa using ih s hj.2
-    | some s' => simp only [Option.getD_some]; rw [ih s' hj.2]; exact step_other req s s' i j hs hj.1
+    | some s' => simp only [Option.getD_some]; rw [ih s' hj.2]; exact step_other s s' i j hs hj.1
 
-example : ∀ j, ((run (step demoReq) demo [0, 0, 0, 1, 1, 0, 0, 0, 0, 1, 1, 1, 1, 1, 1, 1, 1, 1]).th j).todo = [] := by
+example : ∀ j, ((run step demo [0, 0, 0, 1, 1, 0, 0, 0, 0, 1, 1, 1, 1, 1, 1, 1, 1, 1]).th j).todo = [] := by
   intro j
   by_cases h0 : j = 0
   · subst h0; decide
   · by_cases h1 : j = 1
     · subst h1; decide
-    · rw [run_other demoReq j _ demo (by simp [h0, h1])]
+    · rw [run_other j _ demo (by simp [h0, h1])]
       simp [demo, h0, h1]
 
 end Firebolt.RefreshConc
